@@ -45,6 +45,8 @@ def make_probe(scripts, log, extra_mode, restart_limit):
             except asyncio.CancelledError:
                 if mode == "extra-raises":
                     raise RuntimeError("extra task failed while being cancelled")
+                if mode == "extra-slow":
+                    await asyncio.sleep(0.5)  # needs some time to clean up after being cancelled
                 raise
 
         async def _run(self):
@@ -58,12 +60,13 @@ def make_probe(scripts, log, extra_mode, restart_limit):
             err = [None]
 
             def spawn_extra():
-                t = asyncio.create_task(self._extra("extra-raises" if extra_mode.endswith("raises") else "extra-ends"))
+                t = asyncio.create_task(self._extra("extra-raises" if extra_mode.endswith("raises") else
+                                                    ("extra-slow" if extra_mode == "extra-slow" else "extra-ends")))
                 self.extra_tasks.append(t)
                 self._tasks.add(t)
 
             try:
-                if extra_mode in ("extra-ends", "extra-raises") and i == 0:
+                if extra_mode in ("extra-ends", "extra-raises", "extra-slow") and i == 0:
                     spawn_extra()
                 try:
                     for _ in range(n_awaits):
@@ -390,7 +393,7 @@ def scripts_menu(tier):
 
 def configs(tier):
     limits = [0, 1, None] if tier == "quick" else [0, 1, 2, None]
-    extras = ["none", "extra-ends", "extra-raises", "extra-late-ends", "extra-late-raises"]
+    extras = ["none", "extra-ends", "extra-raises", "extra-late-ends", "extra-late-raises", "extra-slow"]
     out = []
     for sc in scripts_menu(tier):
         for lim in limits:
